@@ -1549,4 +1549,49 @@ theorem replaceStep_valid_gen (S : Schema) (hdet : DetS S) (hfill : FillersOK S)
           exact fitEmit_valid S rf rt mi _ c.1 c.2 st h hcv
     · simp [throw, throwThe, MonadExceptOf.throw] at h
 
+/-! ### loose validity implies payload validity -/
+
+theorem RL_rightOpenValid (S : Schema) : ∀ (b : Nat) (G : List Node), RL S b G → rightOpenValid S b G = true
+  | 0, G, h => by
+    simp only [RL] at h
+    simpa [rightOpenValid] using h
+  | b + 1, G, ⟨init, t, a, m, k, e, h1, h2, _, _, h5⟩ => by
+    subst e
+    rw [rightOpenValid_snoc]
+    simp [h1, h2, RL_rightOpenValid S b k h5]
+
+theorem UL_openValid (S : Schema) : ∀ (os oe : Nat) (c : List Node), UL S os oe c → openValid S os oe c = true
+  | 0, oe, c, h => by
+    rw [openValid_zero_left]
+    exact RL_rightOpenValid S oe c h
+  | os + 1, oe, c, ⟨t, a, m, k, rest, e, h1, _, _, h4⟩ => by
+    subst e
+    rcases h4 with ⟨hr, hu⟩ | ⟨hr, hu, hrl⟩
+    · subst hr
+      have ih := UL_openValid S os (oe - 1) k hu
+      cases oe with
+      | zero =>
+        simp only [Nat.zero_sub] at ih
+        rw [openValid_zero_right] at ih
+        simp [openValid, leftOpenValid, h1, ih]
+      | succ b =>
+        simp only [Nat.add_sub_cancel] at ih
+        simp [openValid, h1, ih]
+    · have ih := UL_openValid S os 0 k hu
+      rw [openValid_zero_right] at ih
+      have hr' := RL_rightOpenValid S oe rest hrl
+      cases rest with
+      | nil => exact absurd rfl hr
+      | cons y ys =>
+        cases oe with
+        | zero =>
+          simp only [rightOpenValid] at hr'
+          simp [openValid, leftOpenValid, h1, ih, hr']
+        | succ b =>
+          simp [openValid, h1, ih, hr']
+
+theorem looseValid_openValid (S : Schema) (sl : Slice) (h : sl.looseValid S = true) :
+    openValid S sl.openStart sl.openEnd sl.content = true :=
+  UL_openValid S _ _ _ (ulB_sound S _ _ _ h)
+
 end PM
